@@ -637,3 +637,31 @@ PROPS['C19'] = dict(
     must_observe={'cross-configuration comparisons': lambda agg, d: agg['counters'].get('histories_compared_across_configurations', 0) > 0,
                   'limit workloads': lambda agg, d: agg['counters'].get('limit_fills', 0) > 0},
 )
+
+
+# ---------------------------------------------------------------- C20
+def c20_jobs(tier):
+    return [
+        Job('tsan', 'c20', 'threads', q(tier, 160, 20000), flavour='tsan', workers=4, timeout=q(tier, 900, 7200)),
+        Job('stress-O2', 'c20', 'threads', q(tier, 1600, 200000), flavour='plain', workers=4, timeout=q(tier, 900, 7200)),
+        Job('tsan-small', 'c20', 'threads', q(tier, 80, 10000), flavour='tsan', workers=4, defines={'ARDUINOJSON_SLOT_ID_SIZE': 1, 'ARDUINOJSON_POOL_CAPACITY': 8, 'ARDUINOJSON_USE_DOUBLE': 0, 'ARDUINOJSON_ENABLE_COMMENTS': 1}, timeout=q(tier, 900, 7200)),
+    ]
+
+
+PROPS['C20'] = dict(
+    level='exploration',
+    rule='rounds of T in {2,4,8,16} threads released together by a barrier; each thread runs (1) a C04 API history of 10..40 steps on its own documents (own instrumented allocator or the shared default allocator), judged by the model, '
+         '(2) parse / pretty-print / MessagePack / number conversion of generated texts, (3) const-only use of ONE shared document: copy source, comparison operand, Filter(JsonVariantConst), iteration, measure; random sched_yield / spin delays '
+         'BETWEEN API calls. Oracles: ThreadSanitizer reports (collected through __tsan_on_report, classified by whether a library frame is on the stack), model agreement inside each thread, and equality of each thread\'s result digest '
+         'with the same workload run alone beforehand; a second, uninstrumented -O2 build repeats the rounds for higher contention. Interleavings are measured from per-thread rdtsc stamps merged after join. distinct = distinct interleaving of the recorded points',
+    jobs=c20_jobs,
+    min_evaluations=dict(quick=1500, thorough=100000),
+    technique='race detection with ThreadSanitizer (g++ -fsanitize=thread) on concurrent per-thread histories plus sequential-equivalence comparison of recorded per-thread results; no shared monitor state inside the threads',
+    level_text='Exploration: TSan finds races in executed code largely independently of the schedule actually taken; the equivalence check covers the interleavings that occurred.',
+    level_note='Not all interleavings can be enumerated; the library has no internal suspension points, so delays are injected between API calls only.',
+    assumptions=['g++ 12 ThreadSanitizer runtime; malloc/free are intercepted and synchronised by the runtime', 'verdict is about the executions produced by this run only'],
+    extra_coverage={'distinct_interleavings': lambda agg, d: d.get('interleavings', 0), 'thread_rounds': lambda agg, d: agg['counters'].get('thread_rounds', 0),
+                    'threads_run': lambda agg, d: agg['counters'].get('threads_run', 0), 'thread_switch_points': lambda agg, d: agg['counters'].get('thread_switch_points', 0),
+                    'tsan_rounds': lambda agg, d: agg['outcomes'].get('tsan-round', 0)},
+    must_observe={'thread switches': lambda agg, d: agg['counters'].get('thread_switch_points', 0) > 100, 'tsan rounds': lambda agg, d: agg['outcomes'].get('tsan-round', 0) > 0},
+)
